@@ -245,6 +245,12 @@ func (c *ShadowStreamClientConn) writeToServerConn(w *ShadowStreamServerConn) (n
 	if n, err = c.ShadowStreamConn.flushReadBuf(w); err != nil {
 		return n, err
 	}
+	if w.ShadowStreamConn.writeCipher == nil {
+		// w has not written anything yet, and there was no leftover to make it do so:
+		// its first write has to go through w.Write, which sends the response header.
+		nn, err := c.ShadowStreamConn.WriteTo(w)
+		return n + nn, err
+	}
 	nn, err := c.ShadowStreamConn.writeToShadowStreamConn(&w.ShadowStreamConn)
 	return n + nn, err
 }
